@@ -148,6 +148,10 @@ def body_io(ctx, case):
                 ctx.check(not os.path.exists(path), "file_written_despite_missing_component", desc)
             return
         ctx.check(saved, "save_raises", lambda: "%r; " % (err,) + desc())
+        # history: the target layout has been used before (densified, as ALTO export / confidence estimation / decoding do)
+        for line in l2.lines_iterator():
+            line.get_dense_logits()
+            line.get_full_logprobs()
         if case["legacy"]:
             d = pickle.loads(blob) if isinstance(blob, bytes) else pickle.load(open(blob, "rb"))
             d.pop("line_characters", None)
@@ -176,22 +180,23 @@ def body_io(ctx, case):
         for line in l1.lines_iterator():
             if line.id != miss_id:
                 ctx.check(line.logits is model[line.id][0], "save_mutates_source", desc)
-        # ---- dense reconstruction
+        # ---- dense reconstruction (on the lines that were just loaded into the used layout, and on fresh lines)
         from pero_ocr.core.layout import TextLine
+        loaded = {l.id: l for l in l2.lines_iterator() if l.id in model and l.id != miss_id}
         for i, (m, chars, coords, dense) in model.items():
-            tl = TextLine(id=i, logits=m)
-            for floor in (None, case["floor"]):
-                got = tl.get_dense_logits() if floor is None else tl.get_dense_logits(floor)
-                f = -80 if floor is None else floor
-                want = np.where(dense != 0, dense, np.float32(f))
-                ctx.check(got.shape == dense.shape and np.array_equal(got, want), "dense_reconstruction",
-                          lambda: "line %r floor %r; " % (i, f) + desc())
-            if dense.shape[0]:
-                lp = tl.get_full_logprobs()
-                s = np.logaddexp.reduce(lp.astype(np.float64), axis=1)
-                ctx.check(np.all(np.abs(s) < 1e-5), "full_logprobs_not_normalised", lambda: "line %r sums %r; " % (i, s) + desc())
-                dl = tl.get_dense_logits()
-                ctx.check(np.allclose(lp - lp[:, :1], dl - dl[:, :1], atol=1e-4), "full_logprobs_not_shift_of_logits", desc)
+          for tl in ([loaded[i]] if i in loaded else []) + [TextLine(id=i, logits=m)]:
+              for floor in (None, case["floor"]):
+                  got = tl.get_dense_logits() if floor is None else tl.get_dense_logits(floor)
+                  f = -80 if floor is None else floor
+                  want = np.where(dense != 0, dense, np.float32(f))
+                  ctx.check(got.shape == dense.shape and np.array_equal(got, want), "dense_reconstruction",
+                            lambda: "line %r floor %r; " % (i, f) + desc())
+              if dense.shape[0]:
+                  lp = tl.get_full_logprobs()
+                  s = np.logaddexp.reduce(lp.astype(np.float64), axis=1)
+                  ctx.check(np.all(np.abs(s) < 1e-5), "full_logprobs_not_normalised", lambda: "line %r sums %r; " % (i, s) + desc())
+                  dl = tl.get_dense_logits()
+                  ctx.check(np.allclose(lp - lp[:, :1], dl - dl[:, :1], atol=1e-4), "full_logprobs_not_shift_of_logits", desc)
         only_one_side = (set(model) ^ set(ids2)) - {miss_id}
         mixed = any(0 < (d != 0).sum() < d.size for _, _, _, d in model.values())
         if len(model) >= 2 and only_one_side and mixed:
